@@ -21,8 +21,8 @@
    `c14 lir <items>` runs the code generator's loop over the lowered item list:
    items `;`-separated, each `<f|cN|cu>/<funcs>/<consts>` with comma-separated
    positions (`u` = not in the list, `N` = position of the constant's drop
-   function): `lir=<ok:c,c,…|panic@k>` (run order of the initialisers, or the
-   number of items the loop survives). -/
+   function): `lir=<ok:c,c,…|panic@k> ready=<0|1>` (run order of the initialisers, or the
+   number of items the loop survives; `ready` is the closed form `lirReady`). -/
 import Driver.Util
 import RotoV.Model.Tarjan
 import RotoV.Model.TarjanLir
@@ -130,9 +130,10 @@ def handle (args : List String) : String :=
   | ["lir", items] =>
     match ((items.splitOn ";").filter (· ≠ "")).mapM parseLItem with
     | some its =>
+      let readyS := if lirReady its then " ready=1" else " ready=0"
       match cgLir its with
-      | .ok st => "lir=ok:" ++ showNats (st.runs.map Prod.fst)
-      | .error _ => s!"lir=panic@{lSurvives its its.length}"
+      | .ok st => "lir=ok:" ++ showNats (st.runs.map Prod.fst) ++ readyS
+      | .error _ => s!"lir=panic@{lSurvives its its.length}" ++ readyS
     | none => "bad-op"
   | _ => "bad-op"
 
